@@ -213,6 +213,8 @@ class G:
             elif name == "RDATE" and r.randrange(4) == 0:
                 ptz = tzs if tzs in (None, "UTC") or not self.api_safe else "UTC"
                 items = tuple(self.period(ptz) for _ in range(r.randrange(1, 3)))
+            elif tzs not in (None, "UTC") and r.randrange(8) == 0:
+                items = tuple(self.dt(None) for _ in range(r.randrange(1, 4)))       # floating list next to a zoned start
             else:
                 items = tuple(self.dt(tzs) for _ in range(r.randrange(1, 4)))
             props.append((name, (), ("datelist", items)))
